@@ -39,12 +39,19 @@ Proof.
   destruct j; discriminate.
 Qed.
 
+Lemma start_nonempty : Forall (fun m : bytes => m <> []) start_matches.
+Proof. repeat constructor; discriminate. Qed.
+Lemma fm_correct d : is_fm d start_matches (first_match d start_matches).
+Proof. apply first_match_correct, start_nonempty. Qed.
+Lemma fm_is d r : is_fm d start_matches r -> first_match d start_matches = r.
+Proof. apply first_match_is, start_nonempty. Qed.
+
 (* the found marker determines everything the split function does *)
 Lemma fm_some_facts d pos i :
   first_match d start_matches = Some (pos, i) ->
   (i < 4)%nat /\ index (mk_sm i) d = Some pos /\ (N.to_nat pos + length (mk_sm i) <= length d)%nat /\ d <> [].
 Proof.
-  intros H. pose proof (first_match_correct d start_matches) as C. rewrite H in C.
+  intros H. pose proof (fm_correct d) as C. rewrite H in C.
   destruct C as [(m & Hn & Hi) _]. pose proof (start_idx_lt _ _ Hn) as Hlt.
   destruct (marker_lens i Hlt) as (Hs & L1 & L2). rewrite Hs in Hn. inversion Hn; subst m.
   pose proof (index_bound _ _ _ Hi). repeat split; auto. intros ->. cbn in *. lia.
@@ -154,11 +161,11 @@ Proof.
   pose proof (index_end_bound _ _ _ _ Ek) as Hk. rewrite skipn_length in Hk.
   intros H. inversion H; subst adv tok. clear H.
   assert (F' : first_match (d ++ x) start_matches = Some (pos, i)).
-  { apply first_match_is. split.
+  { apply fm_is. split.
     - exists (mk_sm i). split; [auto|]. now apply index_app_some.
     - intros j m q Hn Hq. destruct (index m d) as [q'|] eqn:Eq.
       + rewrite (index_app_some _ _ x _ Eq) in Hq. inversion Hq; subst q'.
-        pose proof (first_match_correct d start_matches) as C. rewrite F in C. destruct C as [_ M].
+        pose proof (fm_correct d) as C. rewrite F in C. destruct C as [_ M].
         exact (M _ _ _ Hn Eq).
       + pose proof (index_app_none _ _ _ _ Eq Hq) as Hs. pose proof (start_len_le2 _ _ Hn). left. lia. }
   rewrite (split_some _ e _ _ F').
